@@ -663,3 +663,53 @@ func ZZHarnessAttesterOthersThenDecide() {
 	g.checkSigLog(H, "others-then-decide")
 	zzReach("end")
 }
+
+// ZZHarnessRunnerDutyGuard (C15, runner level): the real AttesterRunner.StartNewDuty / BaseRunner.ShouldProcessDuty
+// over the real controller. K operations, each one of: StartNewDuty(slot) with a symbolic slot, or a decided
+// certificate for a symbolic height (which may be above everything seen so far). A duty is accepted only for a slot
+// above every slot already started and every height learned as decided; an accepted duty runs consensus at exactly
+// its slot.
+func ZZHarnessRunnerDutyGuard() {
+	n := int(zzParam("N"))
+	k := int(zzParam("K"))
+	own := zzCommitteeIDs[n][int(zzParam("OWN"))]
+	g := zzNewRRig(n, own)
+	hiStarted, hiDecided := uint64(0), uint64(0)
+	any := false
+	for step := 0; step < k; step++ {
+		if zzNondetBool("startDuty") {
+			slot := zzNondetRange("slot", 0, 5)
+			g.bn.att.Slot = phase0.Slot(slot)
+			duty := &spectypes.Duty{Type: spectypes.BNRoleAttester, Slot: phase0.Slot(slot), ValidatorIndex: 7, CommitteeLength: 4}
+			err := g.r.StartNewDuty(g.lg, duty)
+			if err == nil {
+				zzReach("started")
+				if any {
+					zzAssert(slot > hiStarted, "duty-accepted-only-above-every-slot-already-started")
+					zzAssert(slot > hiDecided, "duty-accepted-only-above-every-height-learned-as-decided")
+				}
+				zzAssert(uint64(g.ctrl.Height) == slot, "accepted-duty-runs-consensus-at-its-slot")
+				if slot > hiStarted {
+					hiStarted = slot
+				}
+				any = true
+			} else {
+				zzReach("refused")
+			}
+		} else {
+			h := zzNondetRange("decidedHeight", 0, 6)
+			d := *(&spectypes.Duty{Type: spectypes.BNRoleAttester, Slot: phase0.Slot(h), ValidatorIndex: 7, CommitteeLength: 4})
+			val, _ := zzCDEncode(&spectypes.ConsensusData{Duty: d, Version: spec.DataVersionPhase0, DataSSZ: []byte{0xA7, 1}})
+			// (through the controller, as the runner's ProcessConsensus does; a runner without a running duty forwards too)
+			_, err := g.ctrl.ProcessMsg(g.lg, g.decided(specqbft.Height(h), 1, val, int(g.share.Quorum)))
+			if err == nil {
+				zzReach("learned-decided")
+				if h > hiDecided {
+					hiDecided = h
+				}
+				any = true
+			}
+		}
+	}
+	zzReach("end")
+}
